@@ -1,9 +1,14 @@
 """C17 — tracing a context through a lattice finds exactly the describing concepts.
 
-A case = a training table, the way its lattice is built (CbO / Lindig / Sofia with an L_max that may prune /
-a hand-made sub-list of concepts keeping top and bottom), a test table over the same attributes, object names and
-the key mode.  The implementation's lattice (extents, intents, children_dict, top) is recorded in the outcome
-and handed to the Coq model; the spec side uses only the intents and the order of the extents."""
+Three streams of cases:
+  formal   a training table, the way its lattice is built (CbO / Lindig / Sofia with an L_max that may prune /
+           a hand-made sub-list of concepts keeping top and bottom), a test table over the same attributes
+  mv       the same with many-valued contexts: interval columns (IntervalPS / IntervalNumpyPS engines), exact
+           (CbO) and Sofia-pruned pattern lattices and hand-made sub-lists, traced on many-valued test contexts
+  history  trace -> edit the lattice (remove + add back, swap a concept for another one, add then remove) ->
+           trace again; the second trace is judged on the CURRENT list of concepts
+The implementation's lattice (extents, intents, top; children_dict for information) is recorded in the outcome;
+the Coq model walks the TRUE cover relation of that list of extents, the spec side uses only the intents."""
 from harness.core import coq, Raw, guarded, canon, ERR_KINDS
 from harness import gen
 
@@ -13,27 +18,47 @@ CASE_TYPE = 'c17_case'
 CHECK = 'c17_check'
 SHOW = 'c17_show'
 SHARD = 150
-RULE = ('case = (training table, lattice builder in {CbO, Lindig, Sofia(L_max), sub-list keeping top and bottom}, '
-        'test table with the same attributes in {training, unseen random, all-false rows, all-true rows, mixed}, '
-        'key mode); non-trivial = lattice of >= 4 concepts, test table with >= 2 distinct rows, '
-        'some object is traced to a proper non-empty subset of the concepts')
+RULE = ('case = (training context [formal table | many-valued table of interval columns], lattice builder in '
+        '{CbO, Lindig, Sofia(L_max), sub-list keeping top and bottom}, optional edit history of the lattice between '
+        'two traces, test context over the same attributes in {training, unseen random, rows satisfying only the top, '
+        'rows satisfying everything, mixed, resampled training rows}, key mode); non-trivial = lattice of >= 4 '
+        'concepts, test context with >= 2 distinct rows, some object is traced to a proper non-empty subset of '
+        'the concepts')
 EXHAUSTIVE = {'thorough': 'all 2x3 and 3x2 training tables x CbO lattice x all test tables with 2 rows over the '
                           'same attributes x both key modes'}
 ASSUMPTIONS = [
-    'the lattice handed to the model is the one the implementation built (its intents, children_dict, top index, '
-    'supports); that it is a sub-list of the concepts with its true cover relation is checked per case '
-    '(hypotheses of the theorems) but is the subject of C02/C03/C12/C15, not of this property',
-    'many-valued (pattern) lattices are not generated by this check',
+    'the lattice is described to the model by the extents and intents of the concepts the implementation holds '
+    '(after the edit history, if any) and the model walks the true cover relation of that list; that the list is '
+    'a set of concepts of the training context is the subject of C02/C14/C15, not of this property',
+    'many-valued contexts: interval columns with integer end points (exact in floats), both interval engines; '
+    'NaN values are outside the quantifier (NaN breaks the Galois law of the interval structures of the '
+    'unchanged tree: a NaN object is not in the extension of its own intention) and are not generated; '
+    'SetPS / AttributePS columns are covered by the theorems but not generated',
     'the iteration order of the frozenset children_dict[c] is a parameter of the model; results are compared as sets',
 ]
 ALGOS = ['CbO', 'Lindig', 'Sofia', 'Sofia', 'sub', 'sub']
+ENGINES = ['IntervalPS', 'IntervalNumpyPS']
 
 
-def build_lattice(case):
+# ------------------------------------------------------------------ building contexts and lattices
+
+def make_context(case, which):
+    """which = 'train' | 'test'"""
+    data = case[which]
+    names = ['o%d' % k for k in case['names']] if which == 'test' else None
+    if case.get('mv'):
+        from fcapy.mvcontext import MVContext, pattern_structure as PS
+        w = len(case['engines'])
+        anames = ['a%d' % j for j in range(w)]
+        ptypes = {anames[j]: getattr(PS, case['engines'][j]) for j in range(w)}
+        rows = [[(tuple(v) if isinstance(v, list) else v) for v in r] for r in data]
+        return MVContext(data=rows, pattern_types=ptypes, attribute_names=anames, object_names=names)
     from fcapy.context import FormalContext
+    return FormalContext(data=[list(r) for r in data], object_names=names)
+
+
+def build_lattice(case, K):
     from fcapy.lattice import ConceptLattice
-    t = case['train']
-    K = FormalContext(data=[list(r) for r in t])
     algo = case['algo']
     if case.get('mono'):
         return ConceptLattice.from_context(K, algo='CbO', is_monotone=True)
@@ -47,21 +72,77 @@ def build_lattice(case):
     return ConceptLattice.from_context(K, algo=algo)
 
 
+def apply_history(case, L, K, Kt):
+    """trace once (fills whatever the lattice memoises), then edit the lattice, size preserved or not"""
+    from fcapy.lattice import ConceptLattice
+    hist = case.get('history')
+    if not hist:
+        return
+    L.trace_context(Kt, use_object_indices=True)
+    full = None
+    for op in hist:
+        kind = op[0]
+        n = len(L)
+        inner = [i for i in range(n) if i not in (L.top, L.bottom)]
+        if kind == 'readd' and inner:              # take a concept out and put it back (indexes shift)
+            i = inner[op[1] % len(inner)]
+            c = L[i]
+            del L[i]
+            L.add(c)
+        elif kind in ('swap', 'add_del', 'add'):
+            if full is None:
+                full = list(ConceptLattice.from_context(K, algo='CbO'))
+            have = list(L)
+            other = [c for c in full if c not in have]
+            if not other:
+                continue
+            new = other[op[2] % len(other)]
+            if kind == 'swap' and inner:            # another concept of the complete lattice instead of this one
+                del L[inner[op[1] % len(inner)]]
+                L.add(new)
+            elif kind == 'add_del' and inner:       # add first, then delete an old one
+                L.add(new)
+                L.remove(have[inner[op[1] % len(inner)]])
+            elif kind == 'add':
+                L.add(new)
+        elif kind == 'del' and inner:
+            del L[inner[op[1] % len(inner)]]
+        if op[-1] == 'trace':                      # an intermediate look at the lattice
+            L.trace_context(Kt, use_object_indices=True)
+
+
+def intent_info(case, c):
+    if not case.get('mv'):
+        return sorted(int(m) for m in c.intent_i)
+    out = []
+    for k, d in c.intent_i.items():
+        if d is None:
+            out.append([int(k), None])
+        elif isinstance(d, (tuple, list)):
+            out.append([int(k), [canon(d[0]), canon(d[1])]])
+        else:
+            out.append([int(k), [canon(d), canon(d)]])
+    return out
+
+
 def run_impl(case):
     def go():
-        from fcapy.context import FormalContext
-        L = build_lattice(case)
+        K = make_context(case, 'train')
+        Kt = make_context(case, 'test')
+        L = build_lattice(case, K)
+        apply_history(case, L, K, Kt)
         n = len(L)
-        info = {'exts': [sorted(int(g) for g in c.extent_i) for c in L],
-                'intents': [sorted(int(m) for m in c.intent_i) for c in L],
-                'children': [sorted(int(x) for x in L.children_dict[i]) for i in range(n)],
-                'top': int(L.top)}
-        test = case['test']
-        Kt = FormalContext(data=[list(r) for r in test], object_names=['o%d' % k for k in case['names']])
         try:
             bot, tr = L.trace_context(Kt, use_object_indices=case['by_index'])
-        except NotImplementedError as e:
-            return {'info': info, 'err': 'NotImplementedError'}
+            err = None
+        except NotImplementedError:
+            err = 'NotImplementedError'
+        info = {'exts': [sorted(int(g) for g in c.extent_i) for c in L],
+                'intents': [intent_info(case, c) for c in L],
+                'children': [sorted(int(x) for x in L.children_dict[i]) for i in range(n)],
+                'top': int(L.top)}
+        if err:
+            return {'info': info, 'err': err}
 
         def items(d):
             out = []
@@ -73,9 +154,41 @@ def run_impl(case):
     return list(guarded(go, timeout_s=30))
 
 
+# ------------------------------------------------------------------ Coq terms
+
+def zint(v):
+    f = float(v)
+    if f != f or f != int(f):
+        raise ValueError('interval end point %r is not an integer' % (v,))
+    return '(%d)%%Z' % int(f)
+
+
+def coq_cell(v):
+    lo, hi = (v if isinstance(v, (list, tuple)) else (v, v))
+    return '(%s, %s)' % (zint(lo), zint(hi))
+
+
+def coq_mv_intent(intent):
+    parts = []
+    for k, d in intent:
+        parts.append('(%d, DIv %s)' % (k, 'None' if d is None else '(Some (%s, %s))' % (zint(d[0]), zint(d[1]))))
+    return '[' + '; '.join(parts) + ']'
+
+
+def coq_ctx(case, info):
+    if not case.get('mv'):
+        return '(TFormal %s %s)' % (coq(info['intents']), coq(case['test']))
+    test = case['test']
+    w = len(case['engines'])
+    cols = []
+    for j in range(w):
+        ctor = 'CInterval' if case['engines'][j] == 'IntervalPS' else 'CIntervalNp'
+        cols.append('%s [%s]' % (ctor, '; '.join(coq_cell(r[j]) for r in test)))
+    return '(TMV [%s] %d [%s])' % ('; '.join(coq_mv_intent(i) for i in info['intents']), len(test), '; '.join(cols))
+
+
 def to_coq(case, out):
     info = {'exts': [], 'intents': [], 'children': [], 'top': 0}
-    impl = Raw('(IErr 11)')
     if out[0] == 'ok':
         o = out[1]
         info = o['info']
@@ -86,16 +199,18 @@ def to_coq(case, out):
             impl = Raw('(IOk (%s, %s))' % (pairs(o['bottom']), pairs(o['traced'])))
     else:
         impl = Raw('(IErr %d)' % ERR_KINDS.get(out[1], 11))
-    return 'Build_c17_case %s %s %s %d %s %s %s %s %s' % (
-        coq(info['exts']), coq(info['intents']), coq(info['children']), info['top'],
-        coq(bool(case.get('mono'))), coq(case['test']), coq(case['names']), coq(bool(case['by_index'])), impl)
+    return 'Build_c17_case %s %s %s %d %s %s %s %s' % (
+        coq(info['exts']), coq_ctx(case, info), coq(info['children']), info['top'],
+        coq(bool(case.get('mono'))), coq(case['names']), coq(bool(case['by_index'])), impl)
 
 
 # ------------------------------------------------------------------ generation
 
-def _mk(train, algo, test, names, by_index, L_max=100, keep=None, mono=False, kind='', test_kind=''):
+def _mk(train, algo, test, names, by_index, L_max=100, keep=None, mono=False, kind='', test_kind='',
+        mv=False, engines=None, history=None):
     return {'train': train, 'algo': algo, 'L_max': L_max, 'keep': keep or [], 'mono': mono, 'test': test,
-            'names': names, 'by_index': by_index, 'kind': kind, 'test_kind': test_kind}
+            'names': names, 'by_index': by_index, 'kind': kind, 'test_kind': test_kind, 'mv': mv,
+            'engines': engines or [], 'history': history or []}
 
 
 def n_extents(table):
@@ -154,7 +269,18 @@ def test_table(rng, train, max_h):
     return rows, kind
 
 
-def random_case(rng, max_dim):
+def random_history(rng):
+    ops = []
+    for _ in range(rng.choice([1, 1, 1, 2, 3])):
+        kind = rng.choice(['readd', 'readd', 'swap', 'swap', 'add_del', 'add', 'del'])
+        op = [kind, rng.randrange(50), rng.randrange(50)]
+        if rng.random() < 0.3:
+            op.append('trace')
+        ops.append(op)
+    return ops
+
+
+def random_case(rng, max_dim, history=False):
     train, kind, k = train_table(rng, max_dim)
     algo = rng.choice(ALGOS)
     L_max, keep, mono = 100, None, False
@@ -163,11 +289,100 @@ def random_case(rng, max_dim):
     if algo == 'sub':
         inner = list(range(1, k - 1))
         keep = sorted(rng.sample(inner, rng.randint(len(inner) // 2, len(inner)))) if inner else []
-    if rng.random() < 0.02:
+    if rng.random() < 0.02 and not history:
         mono = True
     test, tk = test_table(rng, train, max_dim + 1)
     names = rng.sample(range(60), len(test))
-    return _mk(train, algo, test, names, rng.random() < 0.5, L_max, keep, mono, kind, tk)
+    hist = random_history(rng) if history else None
+    return _mk(train, algo, test, names, rng.random() < 0.5, L_max, keep, mono, kind, tk, history=hist)
+
+
+# ---- many-valued
+
+def mv_cell(rng, vmax):
+    if rng.random() < 0.65:
+        return rng.randint(0, vmax)
+    a, b = rng.randint(0, vmax), rng.randint(0, vmax)
+    return [min(a, b), max(a, b)]
+
+
+def mv_table(rng, max_h, max_w):
+    h, w = rng.randint(2, max_h), rng.randint(1, max_w)
+    vmax = rng.choice([2, 3, 5])
+    rows = [[mv_cell(rng, vmax) for _ in range(w)] for _ in range(h)]
+    if rng.random() < 0.25 and h >= 2:       # duplicated object
+        rows[rng.randrange(h)] = [v if not isinstance(v, list) else list(v) for v in rows[rng.randrange(h)]]
+    return rows, vmax
+
+
+def mv_extents(rows):
+    """number of interval-pattern concepts: closures of all non-empty object sets (+ the empty extent)"""
+    import itertools
+    h, w = len(rows), len(rows[0])
+    iv = lambda v: (v[0], v[1]) if isinstance(v, list) else (v, v)
+    exts = set()
+    for k in range(1, h + 1):
+        for A in itertools.combinations(range(h), k):
+            d = [(min(iv(rows[g][j])[0] for g in A), max(iv(rows[g][j])[1] for g in A)) for j in range(w)]
+            exts.add(frozenset(g for g in range(h)
+                               if all(d[j][0] <= iv(rows[g][j])[0] and iv(rows[g][j])[1] <= d[j][1] for j in range(w))))
+    return len(exts) + 1
+
+
+def mv_test(rng, train, vmax, max_h):
+    w = len(train[0])
+    kind = rng.choice(['training', 'unseen', 'unseen', 'unseen', 'only_top', 'everything', 'mixed', 'mixed',
+                       'train_rows_shuffled', 'outside'])
+    copy = lambda r: [list(v) if isinstance(v, list) else v for v in r]
+    iv = lambda v: (v[0], v[1]) if isinstance(v, list) else (v, v)
+    if kind == 'training':
+        return [copy(r) for r in train], kind
+    if kind == 'train_rows_shuffled':
+        return [copy(rng.choice(train)) for _ in range(rng.randint(1, max_h))], kind
+    h = rng.randint(1, max_h)
+    # a row that fits only the top: per column the whole range of the training data
+    lo = [min(iv(r[j])[0] for r in train) for j in range(w)]
+    hi = [max(iv(r[j])[1] for r in train) for j in range(w)]
+    only_top = [[lo[j], hi[j]] for j in range(w)]
+    # a row that fits every concept with a proper description: a point inside every training value, if any
+    inner = [max(iv(r[j])[0] for r in train) for j in range(w)]
+    everything = [inner[j] for j in range(w)]
+    outside = [hi[j] + 1 + rng.randint(0, 2) for j in range(w)]
+    if kind == 'only_top':
+        return [copy(only_top) for _ in range(h)], kind
+    if kind == 'everything':
+        return [copy(everything) for _ in range(h)], kind
+    if kind == 'outside':
+        return [copy(outside) for _ in range(h)], kind
+    rows = [[mv_cell(rng, vmax + 1) for _ in range(w)] for _ in range(h)]
+    if kind == 'mixed':
+        rows[rng.randrange(h)] = copy(only_top)
+        rows[rng.randrange(h)] = copy(outside)
+        if rng.random() < 0.5:
+            rows[rng.randrange(h)] = copy(rng.choice(train))
+    return rows, kind
+
+
+def random_mv_case(rng, max_h, history=False):
+    for _ in range(20):
+        train, vmax = mv_table(rng, max_h, 3)
+        k = mv_extents(train)
+        if 3 <= k <= 16:
+            break
+    w = len(train[0])
+    engines = [rng.choice(ENGINES) for _ in range(w)]
+    algo = rng.choice(['CbO', 'CbO', 'Sofia', 'Sofia', 'sub'])
+    L_max, keep = 100, None
+    if algo == 'Sofia':
+        L_max = rng.choice([2, 3, 4, 6, 100])
+    if algo == 'sub':
+        inner = list(range(1, 14))
+        keep = sorted(rng.sample(inner, rng.randint(3, 10)))
+    test, tk = mv_test(rng, train, vmax, max_h + 1)
+    names = rng.sample(range(60), len(test))
+    hist = random_history(rng) if history else None
+    return _mk(train, algo, test, names, rng.random() < 0.5, L_max, keep, False, 'mv', tk, mv=True,
+               engines=engines, history=hist)
 
 
 def exhaustive_cases():
@@ -183,19 +398,25 @@ def generate(rng, tier):
     ex = list(exhaustive_cases())
     if tier == 'thorough':
         cases = ex
-        n_rand, dim = 24000, 6
+        n_rand, n_mv, n_hist, dim = 16000, 7000, 5000, 6
     else:
-        cases = rng.sample(ex, 400)
-        n_rand, dim = 2100, 5
+        cases = rng.sample(ex, 300)
+        n_rand, n_mv, n_hist, dim = 1300, 600, 500, 5
     for _ in range(n_rand):
         cases.append(random_case(rng, dim))
+    for _ in range(n_mv):
+        cases.append(random_mv_case(rng, dim))
+    for k in range(n_hist):
+        cases.append(random_mv_case(rng, dim, history=True) if k % 4 == 0 else random_case(rng, dim, history=True))
     return cases
 
 
 def nontrivial(case):
     t = case['test']
-    if len({tuple(r) for r in t}) < 2 or case.get('mono'):
+    if len({repr(r) for r in t}) < 2 or case.get('mono'):
         return False
+    if case.get('mv'):
+        return mv_extents(case['train']) >= 4
     k = n_extents(case['train'])
     if case['algo'] == 'sub':
         k = 2 + len(case['keep'])
@@ -206,11 +427,18 @@ def nontrivial(case):
 
 def stats(case):
     t = case['test']
-    return {'algo': case['algo'] if not case.get('mono') else 'monotone',
-            'L_max': case['L_max'] if case['algo'] == 'Sofia' else '-',
-            'test_kind': case.get('test_kind', ''), 'by_index': case['by_index'],
-            'train_shape': '%dx%d' % (len(case['train']), len(case['train'][0])),
-            'train_concepts': min(n_extents(case['train']), 20), 'test_rows': len(t)}
+    d = {'stream': ('mv' if case.get('mv') else 'formal') + ('+history' if case.get('history') else ''),
+         'algo': case['algo'] if not case.get('mono') else 'monotone',
+         'L_max': case['L_max'] if case['algo'] == 'Sofia' else '-',
+         'test_kind': case.get('test_kind', ''), 'by_index': case['by_index'],
+         'train_shape': '%dx%d' % (len(case['train']), len(case['train'][0])), 'test_rows': len(t)}
+    if case.get('mv'):
+        d['engines'] = '+'.join(sorted(set(case['engines'])))
+    else:
+        d['train_concepts'] = min(n_extents(case['train']), 20)
+    for op in case.get('history') or []:
+        d['history_op'] = op[0]
+    return d
 
 
 def shrink(case):
@@ -222,24 +450,29 @@ def shrink(case):
             c['test'] = t[:i] + t[i + 1:]
             c['names'] = case['names'][:i] + case['names'][i + 1:]
             out.append(c)
+    hist = case.get('history') or []
+    if len(hist) > 1:
+        for i in range(len(hist)):
+            c = dict(case)
+            c['history'] = hist[:i] + hist[i + 1:]
+            out.append(c)
     if case['algo'] == 'sub':
         for i in range(len(case['keep'])):
             c = dict(case)
             c['keep'] = case['keep'][:i] + case['keep'][i + 1:]
             out.append(c)
     tr = case['train']
-    if len(tr) > 1:
+    if len(tr) > 2 and case.get('test_kind') != 'training':
         for i in range(len(tr)):
             c = dict(case)
             c['train'] = tr[:i] + tr[i + 1:]
-            if case.get('test_kind') == 'training':
-                continue
             out.append(c)
-    for i in range(len(tr)):
-        for j in range(len(tr[0])):
-            if tr[i][j]:
-                c = dict(case)
-                c['train'] = [[(False if (a == i and b == j) else v) for b, v in enumerate(r)]
-                              for a, r in enumerate(tr)]
-                out.append(c)
+    if not case.get('mv'):
+        for i in range(len(tr)):
+            for j in range(len(tr[0])):
+                if tr[i][j]:
+                    c = dict(case)
+                    c['train'] = [[(False if (a == i and b == j) else v) for b, v in enumerate(r)]
+                                  for a, r in enumerate(tr)]
+                    out.append(c)
     return out
